@@ -141,14 +141,25 @@ def check(pid, tier):
     gen_stats = {}
     gen_errors = {}
     gname = lambda g: "%s.%s" % (getattr(g, "__module__", "?").split(".")[-1], g.__name__)
+    # quick tier: every generator runs with several sub-seeds (its enumerated part comes out identical
+    # each time and is kept once, its random part is multiplied); all derived from the one seed
+    reps = int(os.environ.get("VERIF_REPS", "4" if tier == "quick" else "1"))
+    seen_cases = set()
     for g in P.gens:
-        try:
-            cs = g(rng, tier)
-        except Exception as ex:      # a broken generator must not take the whole check down
-            gen_errors[gname(g)] = repr(ex)[:300]
-            cs = []
-        gen_stats[gname(g)] = gen_stats.get(gname(g), 0) + len(cs)
-        cases += cs
+        for rep in range(reps):
+            try:
+                cs = g(rng if rep == 0 else random.Random("%d/%s/%d" % (seed, gname(g), rep)), tier)
+            except Exception as ex:      # a broken generator must not take the whole check down
+                gen_errors[gname(g)] = repr(ex)[:300]
+                cs = []
+            new = []
+            for c in cs:
+                key = hash(tuple(c))
+                if key not in seen_cases:
+                    seen_cases.add(key)
+                    new.append(c)
+            gen_stats[gname(g)] = gen_stats.get(gname(g), 0) + len(new)
+            cases += new
     model_bin = os.path.join(build.LEAN, ".lake", "build", "bin", "model")
     impl_bin = os.path.join(bindir, "impl")
     if not os.path.exists(model_bin):
@@ -199,10 +210,10 @@ def check(pid, tier):
     cov["samples"] = samples
     cov["known_findings_printed"] = known_printed
 
-    # optimized build (thorough tier of the properties that quantify over both build profiles): the
-    # same operation lines through a --release harness; any difference from the checked build's
-    # answers (a value, an error kind, a panic that only one profile has) is reported
-    if tier == "thorough" and getattr(P, "release_check", False):
+    # optimized build (properties that quantify over both build profiles, C01/C02): the same operation
+    # lines through a --release harness, judged by the property's `release_judge` (the direct oracle
+    # on the optimized build's answer; C01 also reports results that differ between the profiles)
+    if getattr(P, "release_check", False) and os.environ.get("VERIF_RELEASE") != "0":
         okr, logr, bindir_r = build.cargo_build(release=True)
         rel = {"built": okr}
         if okr:
@@ -213,7 +224,8 @@ def check(pid, tier):
                     if op.startswith("img "):
                         continue
                     a, b = impl_ans[ci][oi] or "none", rel_ans[ci][oi] or "none"
-                    if P.project(op, a) != P.project(op, b):
+                    rj = P.release_judge(op, a, b) if hasattr(P, "release_judge") else ("checked and optimized builds answer differently" if P.project(op, a) != P.project(op, b) else None)
+                    if rj:
                         kf = next((k for k in known if k["re"].search("%s => %s ## " % (op, a)) or k["re"].search("%s => %s ## " % (op, b))), None)
                         if kf:
                             if kf["text"] not in known_printed:
@@ -221,7 +233,7 @@ def check(pid, tier):
                             continue
                         ndiff += 1
                         if ndiff <= 3:
-                            disagreements.append((ci, oi, {"kind": "spec", "text": "checked and optimized builds answer differently: debug=%s release=%s" % (a[:200], b[:200])}))
+                            disagreements.append((ci, oi, {"kind": "spec", "text": "optimized build: %s: debug=%s release=%s" % (rj, a[:200], b[:200])}))
             rel["compared"] = nops
             rel["differences"] = ndiff
         cov["release_profile"] = rel
